@@ -28,3 +28,18 @@ func TestVerifC14Server(t *testing.T) {
 		"non-trivial = a stream the peer opened while exactly one GOAWAY was on the wire was handed to a handler",
 		Gen: genSPlan, Run: serverRun})
 }
+
+func TestVerifC14GS(t *testing.T) {
+	vk.Check(t, vk.Unit[GPlan]{ID: "C14", Name: "gs", Rule: "real grpc.Server (UnknownServiceHandler, handlers block until released) serving 1-2 scripted h2peer clients over a vpipe listener; " +
+		"ops as in unit server with GracefulStop instead of Drain, addressed to a generated connection; afterwards every open stream is released and 1 s passes. " +
+		"Per-connection drain oracle as in unit server, plus: GracefulStop does not return while a handler runs and returns once every connection is gone. " +
+		"non-trivial = a stream the peer opened while exactly one GOAWAY was on the wire was handed to a handler",
+		Gen: genGPlan, Run: gsRun})
+}
+
+func TestVerifC14CC(t *testing.T) {
+	vk.Check(t, vk.Unit[CCPlan]{ID: "C14", Name: "cc", Rule: "real grpc.ClientConn (passthrough, pick_first, dialer handing out vpipe ends, raw codec, retries disabled) against scripted h2peer servers: " +
+		"connection i holds requests, sends GOAWAY (one- or two-phase) when its k-th stream (k in 1..5) arrives with last-stream-id = id of its j-th stream (0<=j<=k), answers 1..j, ignores the rest; " +
+		"1..5 (12) batches of 1..5 concurrent unary calls tagged with x-call metadata. non-trivial = some call was transparently retried (appeared twice on the wire)",
+		Gen: genCCPlan, Run: ccRun})
+}
